@@ -254,6 +254,24 @@ func ruleErrLast(c *Ctx) []Obligation {
 					}
 					okAll := true
 					for _, rc := range recCalls {
+						// the calls of the deviation pass itself are the pass, wherever its loops are split
+						isPass := false
+						for _, cal := range c.Callees(rc) {
+							if cal == apply {
+								isPass = true
+							}
+						}
+						// … and so is what the loop around such a call does per module (ToEntry of the module visited)
+						if h := loopHeaderOf(rc.Block()); h != nil {
+							for _, d2 := range c.callsToDeep(proc, apply) {
+								if l2 := liftTo(d2.(ssa.Instruction), proc); l2 != nil && loopHeaderOf(l2.Block()) == h {
+									isPass = true
+								}
+							}
+						}
+						if isPass {
+							continue
+						}
 						earlier := reaches(rc, site) && !reaches(site, rc)
 						if earlier && !reaches(rc, sw.call) {
 							okAll = false
